@@ -32,6 +32,12 @@ RingOK(e) == LET x == RingExpected(e) IN
              IF x = <<"undef">> THEN TRUE
              ELSE IF x = <<"err">> THEN e.err
              ELSE ~e.err /\ e.got[1] = x[1] /\ e.got = x
+\* matching predicates: the set of solutions, each a set of <<variable, value>> bindings
+IsMatch(e) == e.f \in {":match_entry", ":match_field", ":match_pair", ":match_cons", ":match_nil", ":list:member"}
+SolSet(e) == {{<<v, s[v]>> : v \in DOMAIN s} : s \in BuiltinSols(e.f, e.a, NoSub)}
+ObsSols(e) == {{<<b[1], Norm(b[2])>> : b \in Ran(sol)} : sol \in Ran(e.sols)}
+\* (a scrutinee of the wrong kind may be reported as an error instead of "no match")
+MatchOK(e) == IF e.err THEN SolSet(e) = {} ELSE ObsSols(e) = {{<<b[1], Norm(b[2])>> : b \in sol} : sol \in SolSet(e)}
 Expected(e) ==
   IF e.f \in {"lt", "le", "gt", "ge"} THEN <<"bool", CmpHolds(e.f, e.a[1], e.a[2])>>
   ELSE IF IsRed(e.f) THEN Reduce(e.f, e.a)
@@ -42,7 +48,10 @@ OK(e) == LET x == Expected(e) IN
          IF IsErr(x) THEN e.err ELSE (~e.err /\ Obs(e) = Norm(x))
 Init == l = 1
 Next == /\ l <= Len(Trace) /\ l' = l + 1
-        /\ IF IsRing(Trace[l])
+        /\ IF IsMatch(Trace[l])
+           THEN /\ PrintT(<<"CLASS", Trace[l].id, IF SolSet(Trace[l]) = {} THEN "nomatch" ELSE "match">>)
+                /\ MatchOK(Trace[l]) \/ PrintT(<<"MISMATCH", Trace[l].id, 1, "WRONG_RESULT", ToJson(SolSet(Trace[l]))>>)
+           ELSE IF IsRing(Trace[l])
            THEN /\ PrintT(<<"CLASS", Trace[l].id, IF RingExpected(Trace[l]) = <<"undef">> THEN "ring_unjudged" ELSE IF RingExpected(Trace[l]) = <<"err">> THEN "error" ELSE "ring">>)
                 /\ RingOK(Trace[l]) \/ PrintT(<<"MISMATCH", Trace[l].id, 1, "WRONG_RESULT", ToJson(RingExpected(Trace[l]))>>)
            ELSE /\ PrintT(<<"CLASS", Trace[l].id, IF IsErr(Expected(Trace[l])) THEN "error" ELSE "value">>)
